@@ -3,6 +3,7 @@ import RichModel.Lemmas.StyleText
 import RichModel.Lemmas.StyleParse
 import RichModel.Lemmas.StyleSpell
 import RichModel.Lemmas.StyleSpellNum
+import RichModel.Lemmas.StyleSpellRgb
 /-!
 # C06 — styles form a consistent algebra, round-trip through text, and hash consistently
 
@@ -215,18 +216,28 @@ theorem default_color_spelling (v : Variant) :
     parse v (cl! "on default") = .ok (onlyColor defaultColor false) :=
   parse_color_word (default_color_wf v)
 
-/-- `#rrggbb` and `rgb(r,g,b)`: spot instances of the documented example (purple, docs/source/style.rst);
-the general statement over all 2^24 triplets is covered by the correspondence and the direct
-evaluation (all 256 values of each channel every run), not by a theorem. -/
-theorem truecolor_spellings_partial (v : Variant) :
-    parse v (cl! "#af00ff") = .ok (onlyColor { name := cl! "#af00ff", type := .truecolor, triplet := some ⟨175, 0, 255⟩ } true) ∧
-    parse v (cl! "rgb(175,0,255)") =
-      .ok (onlyColor { name := cl! "rgb(175,0,255)", type := .truecolor, triplet := some ⟨175, 0, 255⟩ } true) := by
-  have h : isOk (parse Variant.fixed (cl! "#af00ff")) (onlyColor { name := cl! "#af00ff", type := .truecolor, triplet := some ⟨175, 0, 255⟩ } true) = true ∧
-      isOk (parse Variant.fixed (cl! "rgb(175,0,255)"))
-        (onlyColor { name := cl! "rgb(175,0,255)", type := .truecolor, triplet := some ⟨175, 0, 255⟩ } true) = true := by
-    decide
-  exact ⟨parse_ok_indep (isOk_iff.mp h.1), parse_ok_indep (isOk_iff.mp h.2)⟩
+/-- `#` followed by three pairs of (lower-case) hex digits is the truecolor with those components,
+foreground and background — for all 16^6 such strings.  (Upper-case digits are lower-cased by
+`Color.parse` first; that path is exercised by the correspondence, not stated here.) -/
+theorem hex_color_spellings (v : Variant) (a b c d e f : Char) (h : [a, b, c, d, e, f].all isHexLower = true) :
+    let text := ['#', a, b, c, d, e, f]
+    let col : Color := { name := text, type := .truecolor,
+                         triplet := some ⟨16 * hexVal a + hexVal b, 16 * hexVal c + hexVal d, 16 * hexVal e + hexVal f⟩ }
+    parse v text = .ok (onlyColor col true) ∧ parse v (cl! "on " ++ text) = .ok (onlyColor col false) :=
+  parse_color_word (hex_color_wf v a b c d e f h)
+
+/-- `hexVal` reads the sixteen digits as 0..15. -/
+theorem hex_digit_values : (cl! "0123456789abcdef").map hexVal = List.range 16 ∧
+    (cl! "0123456789abcdef").all isHexLower = true := by
+  decide
+
+/-- `rgb(r,g,b)` with decimal r, g, b ≤ 255 is the truecolor with those components, foreground and
+background — for all 2^24 triplets. -/
+theorem rgb_color_spellings (v : Variant) (r g b : Nat) (hr : r < 256) (hg : g < 256) (hb : b < 256) :
+    let text := cl! "rgb(" ++ (Nat.toDigits 10 r ++ ',' :: (Nat.toDigits 10 g ++ ',' :: Nat.toDigits 10 b)) ++ [')']
+    let col : Color := { name := text, type := .truecolor, triplet := some ⟨r, g, b⟩ }
+    parse v text = .ok (onlyColor col true) ∧ parse v (cl! "on " ++ text) = .ok (onlyColor col false) :=
+  parse_color_word (rgb_color_wf v r g b hr hg hb)
 
 /-- The words the style grammar gives a meaning of their own (`on not link none` and the 22
 attribute words) are not colour definitions on this run's `ANSI_COLOR_NAMES` — the side condition
